@@ -209,11 +209,14 @@ static std::pair<long, int> run_history(const uint8_t* data, size_t size, bool c
     } else if (op == 5 && nclients > 2) {
       g_log.push_back("client" + std::to_string(i) + " closes its socket");
       bus.close_client(cl[i]);
+      // (frames eavesdropped earlier may still be unread; whether they may be dropped is decided by the rules held *before* the
+      //  disconnect, which removes other clients' rules that name the departed unique name)
+      std::vector<MConn> before_dc = model.conns;
       Out o; model.disconnect(mc[i], o);
       bus.pump();
       for (int j = 0; j < nclients; j++) if (bus.client(cl[j]).open()) {
         auto fr = bus.drain(cl[j]);
-        drop_eavesdropped(fr, model.conns[mc[j]]);
+        drop_eavesdropped(fr, before_dc[mc[j]]);
         std::string d = match_frames(fr, o[mc[j]]);
         if (!d.empty()) fail("frames-differ", "after a disconnect, client" + std::to_string(j) + ": " + d + "\n  got:\n" + show_frames(fr) + "  want:\n" + show_exps(o[mc[j]]));
         Bus::free_frames(fr);
